@@ -6,8 +6,7 @@ LEAN_MODULE = "XcmModel.Props.C05"
 THEOREMS = [
     "XcmModel.C05.C05_nonblocking_no_wait", "XcmModel.C05.C05_eagain_is_reported",
     "XcmModel.C05.C05_await_finish_refused_when_blocking", "XcmModel.C05.C05_wait_sites",
-    "XcmModel.C05.C05_sock_sites_nonblocking", "XcmModel.C05.C05_helper_calls_partial",
-    "XcmModel.C05.C05_helper_calls_counterexample",
+    "XcmModel.C05.C05_sock_sites_nonblocking", "XcmModel.C05.C05_helper_calls_guarded",
 ]
 LEVEL = "proof"
 WRAPS = ["poll", "ppoll", "select", "epoll_wait", "nanosleep", "usleep", "sleep", "connect", "accept4", "send", "recv",
